@@ -15,6 +15,7 @@ type hb struct {
 	h       *Hist
 	present []int
 	maxOps  int
+	lattice bool
 }
 
 func (b *hb) full() bool { return len(b.h.Ops) >= b.maxOps }
@@ -57,11 +58,11 @@ func (b *hb) fresh() int { // an id that is not stored (falls back to any id)
 }
 
 // pool layouts
-func makePool(r *vproto.Rng, kind string, n int, layout int, half bool) []Box {
-	sc := 1.0
-	if half {
-		sc = 0.5
-	}
+// Scales: dyadic coordinate units (exact in float64 and Rat). Sub-unit scales make all
+// distances < 1 (where d^2 < d), scales > 1 make areas large.
+var Scales = []float64{1, 1, 1, 0.5, 1.0 / 8, 1.0 / 64, 1.0 / 1024, 16}
+
+func makePool(r *vproto.Rng, kind string, n int, layout int, sc float64) []Box {
 	pool := make([]Box, 0, n)
 	seen := map[[2]float64]bool{}
 	cx := []float64{15, 80, 50}
@@ -79,6 +80,8 @@ func makePool(r *vproto.Rng, kind string, n int, layout int, half bool) []Box {
 			y = x + float64(r.Range(0, 2))
 		case 3: // small grid with many coincidences
 			x, y = float64(r.Range(0, 3)*10), float64(r.Range(0, 3)*10)
+		case 5: // jittered lattice (with sc = 1/1024: inside the unit square)
+			x, y = float64(r.Range(0, 8)*128+r.Range(-24, 24)), float64(r.Range(0, 8)*128+r.Range(-24, 24))
 		default: // two far groups
 			if r.Bool() {
 				x, y = float64(r.Range(0, 10)), float64(r.Range(0, 10))
@@ -98,7 +101,11 @@ func makePool(r *vproto.Rng, kind string, n int, layout int, half bool) []Box {
 			seen[[2]float64{x, y}] = true
 			bx = Box{x, y, x, y}
 		} else {
-			w, hgt := float64(r.Range(0, 12))*sc, float64(r.Range(0, 12))*sc
+			wmax := 12
+			if layout == 5 {
+				wmax = 90
+			}
+			w, hgt := float64(r.Range(0, wmax))*sc, float64(r.Range(0, wmax))*sc
 			switch r.Intn(8) {
 			case 0:
 				w = 0
@@ -188,6 +195,11 @@ func (b *hb) regionDelete(q Box) {
 func (b *hb) queries(n int) {
 	r := b.r
 	pool := b.h.Pool
+	sc := b.h.Scale
+	ext := 100.0
+	if b.lattice {
+		ext = 1100
+	}
 	qs := []Box{{-1e6, -1e6, 1e6, 1e6}}
 	for len(qs) < n {
 		o := pool[r.Intn(len(pool))]
@@ -195,20 +207,20 @@ func (b *hb) queries(n int) {
 		case 0: // point query at a corner of an object
 			qs = append(qs, Box{o.MaxX, o.MaxY, o.MaxX, o.MaxY})
 		case 1: // touching at the corner from outside
-			qs = append(qs, Box{o.MaxX, o.MaxY, o.MaxX + 5, o.MaxY + 5})
+			qs = append(qs, Box{o.MaxX, o.MaxY, o.MaxX + 5*sc, o.MaxY + 5*sc})
 		case 2: // touching along the left edge
-			qs = append(qs, Box{o.MinX - 4, o.MinY - 1, o.MinX, o.MaxY + 1})
+			qs = append(qs, Box{o.MinX - 4*sc, o.MinY - sc, o.MinX, o.MaxY + sc})
 		case 3: // just missing (one unit off)
-			qs = append(qs, Box{o.MaxX + 1, o.MinY, o.MaxX + 3, o.MaxY})
+			qs = append(qs, Box{o.MaxX + sc, o.MinY, o.MaxX + 3*sc, o.MaxY})
 		case 4: // horizontal line
-			qs = append(qs, Box{o.MinX - 20, o.MinY, o.MaxX + 20, o.MinY})
+			qs = append(qs, Box{o.MinX - 20*sc, o.MinY, o.MaxX + 20*sc, o.MinY})
 		case 5: // disjoint from everything
-			qs = append(qs, Box{-500, -500, -400, -400})
+			qs = append(qs, Box{-500 * sc, -500 * sc, -400 * sc, -400 * sc})
 		case 6: // the object's own box
 			qs = append(qs, o)
 		default:
-			x, y := float64(r.Range(-5, 100)), float64(r.Range(-5, 100))
-			qs = append(qs, Box{x, y, x + float64(r.Range(0, 40)), y + float64(r.Range(0, 40))})
+			x, y := float64(r.Range(-5, int(ext)))*sc, float64(r.Range(-5, int(ext)))*sc
+			qs = append(qs, Box{x, y, x + float64(r.Range(0, int(ext*2/5)))*sc, y + float64(r.Range(0, int(ext*2/5)))*sc})
 		}
 	}
 	b.h.Queries = qs
@@ -217,8 +229,12 @@ func (b *hb) queries(n int) {
 // GenHist builds one history. phase selects the shape; size scales the number of operations.
 func GenHist(r *vproto.Rng, phase int, par [2]int, kind string, size int, nq int) *Hist {
 	h := &Hist{Min: par[0], Max: par[1], Kind: kind}
-	layout := r.Intn(5)
-	half := r.Chance(0.15)
+	layout := r.Intn(6)
+	sc := Scales[r.Intn(len(Scales))]
+	if layout == 5 {
+		sc = 1.0 / 1024
+	}
+	h.Scale = sc
 	big := par[1] >= 50
 	n := size
 	if big {
@@ -227,8 +243,8 @@ func GenHist(r *vproto.Rng, phase int, par [2]int, kind string, size int, nq int
 			n = 70
 		}
 	}
-	h.Pool = makePool(r, kind, n+4, layout, half)
-	b := &hb{r: r, h: h, maxOps: 6 * n}
+	h.Pool = makePool(r, kind, n+4, layout, sc)
+	b := &hb{r: r, h: h, maxOps: 6 * n, lattice: layout == 5}
 	names := []string{"drain", "boundary", "region", "churn", "dups", "absent"}
 	switch phase {
 	case 0: // grow -> drain to empty -> refill
@@ -263,13 +279,14 @@ func GenHist(r *vproto.Rng, phase int, par [2]int, kind string, size int, nq int
 			q = Box{0, 0, 40, 60}
 		case 4:
 			q = Box{800, 800, 1000, 1000}
+		case 5:
+			x, y := float64(r.Range(0, 500)), float64(r.Range(0, 500))
+			q = Box{x, y, x + 600, y + 600}
 		default:
 			x, y := float64(r.Range(0, 50)), float64(r.Range(0, 50))
 			q = Box{x, y, x + 50, y + 50}
 		}
-		if half {
-			q = Box{q.MinX / 2, q.MinY / 2, q.MaxX / 2, q.MaxY / 2}
-		}
+		q = Box{q.MinX * sc, q.MinY * sc, q.MaxX * sc, q.MaxY * sc}
 		b.regionDelete(q)
 		b.grow(n / 3)
 		b.regionDelete(Box{-1e6, -1e6, 1e6, 1e6})
